@@ -8,7 +8,7 @@ for id in $ids; do
   out=$(./check $id --tier ${1:-quick} 2>&1); rc=$?
   echo "$id rc=$rc $(echo "$out" | grep '^property' )"
   echo "$out" | grep -E '^(VIOLATION|VACUITY|KNOWN-FINDING|MACHINERY)' | head -5
-  [ $rc -ne 0 ] && fail=1
+  if [ $rc -ne 0 ]; then fail=1; echo "$out" | tail -15; fi
 done
 python3-vt - <<'PY'
 import json,jsonschema,glob
